@@ -5,6 +5,7 @@ import (
 	"time"
 
 	"github.com/aperturerobotics/util/backoff"
+	"github.com/aperturerobotics/util/verifhook"
 	cbackoff "github.com/cenkalti/backoff/v4"
 )
 
@@ -101,6 +102,7 @@ func (r *runningRoutine[K, V]) execute(
 	waitCh <-chan struct{},
 ) {
 	var err error
+	verifhook.Point("exec-start", r.k)
 	if waitCh != nil {
 		select {
 		case <-ctx.Done():
@@ -117,6 +119,7 @@ func (r *runningRoutine[K, V]) execute(
 	cancel()
 	close(exitedCh)
 
+	verifhook.Point("lock-enter", r.k)
 	r.k.mtx.Lock()
 	if r.ctx == ctx {
 		r.err = err
@@ -134,6 +137,7 @@ func (r *runningRoutine[K, V]) execute(
 				dur := r.retryBo.NextBackOff()
 				if dur != backoff.Stop {
 					r.deferRetry = time.AfterFunc(dur, func() {
+						verifhook.Point("lock-enter", r.k)
 						r.k.mtx.Lock()
 						if r.k.ctx != nil && r.k.routines[r.key] == r && r.exited {
 							r.start(r.k.ctx, r.exitedCh, true)
@@ -174,6 +178,7 @@ func (r *runningRoutine[K, V]) remove() {
 	}
 
 	timerCb := func() {
+		verifhook.Point("lock-enter", r.k)
 		r.k.mtx.Lock()
 		if r.k.routines[r.key] == r && r.deferRemove != nil {
 			_ = r.deferRemove.Stop()
